@@ -7,12 +7,8 @@ PID = 'C07'
 RULE = ('exhaustive: the (codeword, bit) table of all 48 sizes through MatrixMap::<Tag>::traverse_mut (the traversal has '
         'no other input); value loops: new_with_codewords/codewords on unit, random and too-short codeword vectors and '
         'codewords() on random entries; non-trivial = codeword vector with a non-zero byte')
-THEOREMS = 'C07_table, C07_bijection'
-ASSUMPTIONS = ['Spec/AnnexF.v transcribes the placement program of ISO/IEC 16022 Annex F.1 with the ISO 21471 row wrap',
-               'C07_values (write then read is the identity for all codeword vectors) is covered by C07_bijection + '
-               'correspondence and the direct oracle; its generic list lemma is not yet proved in Coq']
-NOTES = ['partial: the read-after-write identity for all values is a consequence of the bijection theorem that is checked '
-         'per case here, not yet a Coq theorem']
+THEOREMS = 'C07_table, C07_bijection, C07_values'
+ASSUMPTIONS = ['Spec/AnnexF.v transcribes the placement program of ISO/IEC 16022 Annex F.1 with the ISO 21471 row wrap']
 SPEC = None
 
 
